@@ -1,5 +1,82 @@
-/- C05 — placeholder until the theorems are in; not claimed in MANIFEST.json while this comment stands. -/
-import ScpiVerif.Model.Ctx
-import ScpiVerif.Spec.Message
+/-
+C05 — Wrong, missing or surplus parameters raise the right error, never mis-delivered.
+Property theorems only; helper lemmas in ScpiVerif/Lemmas/Params.lean.
+`Spec.Params.expect` is the property's table (error code by situation); `Ctx.runReader` dispatches to
+the model of every typed reader.
+-/
+import ScpiVerif.Model.Readers
+import ScpiVerif.Spec.Params
+import ScpiVerif.Props.C13
+import ScpiVerif.Lemmas.Params
+
 namespace ScpiVerif.Props.C05
+open ScpiVerif ScpiVerif.Ctx ScpiVerif.Lexer ScpiVerif.Spec.Params
+
+/-- no more data: a mandatory parameter queues exactly -109, an optional one queues nothing and
+reports absence; the context is otherwise untouched -/
+theorem missing_parameter (c : Ctx) (r : Reader) (mand : Bool) (h : atEnd c) :
+    let (c', ok) := runReader c r mand
+    ok = false ∧ errorsSince c c' = (if mand then [-109] else []) ∧ c'.ppos = c.ppos ∧ (mand = false → c' = c) :=
+  Lemmas.Params.missing_parameter c r mand h
+
+/-- "in no other case does a typed reader report failure without queuing an error": a reader that
+returns FALSE has queued at least one error, unless the parameter is optional and absent -/
+theorem reader_failure_has_error (c : Ctx) (r : Reader) (mand : Bool) :
+    let (c', ok) := runReader c r mand
+    ok = false → errorsSince c c' ≠ [] ∨ (mand = false ∧ atEnd c) :=
+  Lemmas.Params.reader_failure_has_error c r mand
+
+/-- a reader that succeeds queues nothing -/
+theorem reader_success_is_silent (c : Ctx) (r : Reader) (mand : Bool) :
+    let (c', ok) := runReader c r mand
+    ok = true → errorsSince c c' = [] := Lemmas.Params.reader_success_is_silent c r mand
+
+/-- the outcome of every reader on the next data element is the property's table: when
+SCPI_Parameter delivers a token of type `t` with text `txt`, the reader succeeds iff `expect` says
+ok, and otherwise queues exactly the code `expect` names (-104 wrong type, -138 suffix not allowed,
+-131 unknown suffix, -224 unknown choice) -/
+theorem reader_by_token (c : Ctx) (r : Reader) (mand : Bool) (c1 : Ctx) (tok : Token)
+    (hp : parameter c mand = (c1, true, tok)) :
+    let (c', ok) := runReader c r mand
+    let txt := (c1.buf.drop tok.ptr).take tok.len.toNat
+    match expect r mand (some (tok.type, txt)) with
+    | .ok => ok = true ∧ errorsSince c c' = []
+    | .fail (some e) => ok = false ∧ errorsSince c c' = [e]
+    | .fail none => False :=
+  Lemmas.Params.reader_by_token c r mand c1 tok hp
+
+/-- SCPI_Parameter against the data specification: at a cursor inside the program data it expects a
+comma unless this is the first parameter (else -103), then delivers exactly the next data element of
+Spec.specData with its type and extent, advancing past it and the white space around it; text that
+is not a data element raises -151 and delivers nothing -/
+theorem parameter_delivers_next_item (c : Ctx) (mand : Bool) (h : ¬ atEnd c) (hw : c.pbase + c.plen ≤ c.buf.length)
+    (hpos : c.pbase ≤ c.ppos) :
+    let win := (c.buf.drop c.pbase).take c.plen
+    let rel := c.ppos - c.pbase
+    let (c', ok, tok) := parameter c mand
+    if c.inputCount ≠ 0 ∧ win[rel]? ≠ some 44 then ok = false ∧ errorsSince c c' = [-103]
+    else
+      let start := if c.inputCount ≠ 0 then rel + 1 else rel
+      let w0 := Spec.wsLen (win.drop start)
+      match Spec.specData (win.drop (start + w0)) with
+      | .item n t po pl =>
+        ok = true ∧ tok = ⟨t, c.pbase + start + w0 + po, pl⟩ ∧
+        c'.ppos = c.pbase + start + w0 + n + Spec.wsLen (win.drop (start + w0 + n)) ∧ errorsSince c c' = []
+      | _ => ok = false ∧ errorsSince c c' = [-151] :=
+  Lemmas.Params.parameter_delivers_next_item c mand h hw hpos
+
+/-- error accounting of a unit: after the handler, -200 is queued iff it returned ERR without any error
+of its own, and -108 iff unread data remains and no error was queued during the unit -/
+theorem unit_accounting (c : Ctx) (cmd : Cmd) (hc : c.cur = some cmd) :
+    let c0 := { c with cmdError := false, inputCount := 0,
+                       out := { c.out with outputCount := if c.out.firstOutput then 0 else -1, arbRemaining := 0 } }
+    let c1 := emit c0 (.handler cmd.tag ((c0.buf.drop c0.rawOff).take c0.rawLen))
+    let (c2, ok) := runScript c1 cmd.script
+    let (c', res) := processCommand c
+    let own := errorsSince c1 c2
+    errorsSince c c' = own ++ (if !ok ∧ c2.cmdError = false then [-200] else []) ++
+      (if c2.ppos < c2.pbase + c2.plen ∧ (c2.cmdError = false ∧ ok) then [-108] else []) ∧
+    (res = true ↔ errorsSince c c' = [] ∧ ok = true) :=
+  Lemmas.Params.unit_accounting c cmd hc
+
 end ScpiVerif.Props.C05
